@@ -27,6 +27,8 @@ type mhandle struct {
 }
 
 type mfs struct {
+	links    map[string]string // symbolic links: name -> target
+	umask    value             // uint32 or symI{Uint32}; applied to the mode of created files
 	files    map[string]*mfile
 	calls    int
 	faultAt  int
@@ -50,7 +52,7 @@ func (e *explorer) fs() *mfs {
 	if f, ok := e.stubState["fs"].(*mfs); ok {
 		return f
 	}
-	f := &mfs{files: map[string]*mfile{}, faultAt: -1, crashAt: -1}
+	f := &mfs{files: map[string]*mfile{}, links: map[string]string{}, umask: uint32(0), faultAt: -1, crashAt: -1}
 	e.stubState["fs"] = f
 	return f
 }
@@ -70,6 +72,38 @@ func (f *mfs) done() {
 	if f.calls == f.crashAt {
 		panic(targetPanic{iface{t: types.Typ[types.String], v: zzCrash}})
 	}
+}
+
+// resolve follows a symbolic link (one level is all the harnesses create).
+func (f *mfs) resolve(p string) string {
+	if t, ok := f.links[p]; ok {
+		return t
+	}
+	return p
+}
+
+// masked applies the process umask to the permission bits of a new file.
+func (f *mfs) masked(perm value) value {
+	perm = modeU32(perm)
+	if !isSym(perm) && !isSym(f.umask) {
+		return perm.(uint32) &^ f.umask.(uint32)
+	}
+	return symI{"(bvand " + toI(perm, types.Uint32) + " (bvnot " + toI(f.umask, types.Uint32) + "))", types.Uint32}
+}
+
+// errWrap builds an error that wraps a std sentinel (errors.Is works on it).
+func (i *interpreter) errWrap(msg, sentinel string) value {
+	if v, ok := i.sentinels[sentinel].(iface); ok {
+		return i.newErr(msg, []iface{v})
+	}
+	return i.newErr(msg, nil)
+}
+
+func (i *interpreter) sentinelOr(name string) value {
+	if v, ok := i.sentinels[name]; ok {
+		return v
+	}
+	return i.newErr(name, nil)
 }
 
 func fileValue(h *mhandle) value {
@@ -138,7 +172,7 @@ func init() {
 			return nil
 		},
 		".zzFSGet": func(fr *frame, a []value) value {
-			f, ok := fr.i.ex.fs().files[a[0].(string)]
+			f, ok := fr.i.ex.fs().files[fr.i.ex.fs().resolve(a[0].(string))]
 			if !ok {
 				return tuple{"", 0, false}
 			}
@@ -150,6 +184,18 @@ func init() {
 				m = int(asUint64(widenAny(mv)))
 			}
 			return tuple{f.data, m, true}
+		},
+		".zzFSSymlink": func(fr *frame, a []value) value {
+			fr.i.ex.fs().links[a[0].(string)] = a[1].(string)
+			return nil
+		},
+		".zzFSIsLink": func(fr *frame, a []value) value {
+			_, ok := fr.i.ex.fs().links[a[0].(string)]
+			return ok
+		},
+		".zzFSUmask": func(fr *frame, a []value) value {
+			fr.i.ex.fs().umask = modeU32(a[0])
+			return nil
 		},
 		".zzFSFaultAt": func(fr *frame, a []value) value {
 			f := fr.i.ex.fs()
@@ -205,14 +251,14 @@ func init() {
 		// ---- os ----
 		"os.ReadFile": func(fr *frame, a []value) value {
 			f := fr.i.ex.fs()
-			p := a[0].(string)
+			p := f.resolve(a[0].(string))
 			if m := f.step("open", p); m != "" {
 				return tuple{[]value(nil), errv(fr, m)}
 			}
 			defer f.done()
 			mf, ok := f.files[p]
 			if !ok {
-				return tuple{[]value(nil), fr.i.newErr("open "+p+": no such file or directory", nil)}
+				return tuple{[]value(nil), fr.i.errWrap("open "+p+": no such file or directory", "io/fs.ErrNotExist")}
 			}
 			return tuple{toByteValues(mf.data), iface{}}
 		},
@@ -225,12 +271,12 @@ func init() {
 			defer f.done()
 			f.tempN++
 			p := filepath.Join(dir, fmt.Sprintf("%s%dzz", pat, f.tempN))
-			f.files[p] = &mfile{mode: uint32(0o600)}
+			f.files[p] = &mfile{mode: f.masked(uint32(0o600))}
 			return tuple{fileValue(&mhandle{path: p}), iface{}}
 		},
 		"os.Create": func(fr *frame, a []value) value {
 			f := fr.i.ex.fs()
-			p := a[0].(string)
+			p := f.resolve(a[0].(string))
 			if m := f.step("create", p); m != "" {
 				return tuple{(*value)(nil), errv(fr, m)}
 			}
@@ -238,13 +284,13 @@ func init() {
 			if mf, ok := f.files[p]; ok {
 				mf.data = "" // O_TRUNC
 			} else {
-				f.files[p] = &mfile{mode: uint32(0o644)}
+				f.files[p] = &mfile{mode: f.masked(uint32(0o666))}
 			}
 			return tuple{fileValue(&mhandle{path: p}), iface{}}
 		},
 		"os.OpenFile": func(fr *frame, a []value) value {
 			f := fr.i.ex.fs()
-			p := a[0].(string)
+			p := f.resolve(a[0].(string))
 			flag := int(asInt64(a[1]))
 			if m := f.step("openfile", p); m != "" {
 				return tuple{(*value)(nil), errv(fr, m)}
@@ -253,10 +299,12 @@ func init() {
 			mf, ok := f.files[p]
 			if !ok {
 				if flag&0x40 == 0 { // O_CREATE
-					return tuple{(*value)(nil), fr.i.newErr("open "+p+": no such file or directory", nil)}
+					return tuple{(*value)(nil), fr.i.errWrap("open "+p+": no such file or directory", "io/fs.ErrNotExist")}
 				}
-				mf = &mfile{mode: modeU32(a[2])}
+				mf = &mfile{mode: f.masked(a[2])}
 				f.files[p] = mf
+			} else if flag&0x80 != 0 && flag&0x40 != 0 { // O_EXCL|O_CREATE on an existing file
+				return tuple{(*value)(nil), fr.i.errWrap("open "+p+": file exists", "io/fs.ErrExist")}
 			}
 			if flag&0x200 != 0 { // O_TRUNC
 				mf.data = ""
@@ -265,7 +313,7 @@ func init() {
 		},
 		"os.WriteFile": func(fr *frame, a []value) value {
 			f := fr.i.ex.fs()
-			p := a[0].(string)
+			p := f.resolve(a[0].(string))
 			data := bytesOf(a[1])
 			if m := f.step("open-trunc", p); m != "" {
 				return errv(fr, m)
@@ -274,7 +322,7 @@ func init() {
 			if ok {
 				mf.data = ""
 			} else {
-				mf = &mfile{mode: modeU32(a[2])}
+				mf = &mfile{mode: f.masked(a[2])}
 				f.files[p] = mf
 			}
 			f.done()
@@ -359,7 +407,7 @@ func init() {
 		},
 		"os.Chmod": func(fr *frame, a []value) value {
 			f := fr.i.ex.fs()
-			p := a[0].(string)
+			p := f.resolve(a[0].(string))
 			if m := f.step("chmod", p); m != "" {
 				return errv(fr, m)
 			}
@@ -371,16 +419,42 @@ func init() {
 			mf.mode = modeU32(a[1])
 			return iface{}
 		},
-		"os.Stat": func(fr *frame, a []value) value {
+		"os.Lstat": func(fr *frame, a []value) value {
 			f := fr.i.ex.fs()
 			p := a[0].(string)
+			if m := f.step("lstat", p); m != "" {
+				return tuple{iface{}, errv(fr, m)}
+			}
+			defer f.done()
+			if _, ok := f.links[p]; ok {
+				return tuple{fr.i.fileInfo(p, &mfile{mode: uint32(0o777) | uint32(1<<27)}), iface{}} // fs.ModeSymlink
+			}
+			mf, ok := f.files[p]
+			if !ok {
+				return tuple{iface{}, fr.i.errWrap("lstat "+p+": no such file or directory", "io/fs.ErrNotExist")}
+			}
+			return tuple{fr.i.fileInfo(p, mf), iface{}}
+		},
+		"os.Readlink": func(fr *frame, a []value) value {
+			f := fr.i.ex.fs()
+			if t, ok := f.links[a[0].(string)]; ok {
+				return tuple{t, iface{}}
+			}
+			return tuple{"", fr.i.newErr("readlink "+a[0].(string)+": invalid argument", nil)}
+		},
+		"path/filepath.EvalSymlinks": func(fr *frame, a []value) value {
+			return tuple{fr.i.ex.fs().resolve(a[0].(string)), iface{}}
+		},
+		"os.Stat": func(fr *frame, a []value) value {
+			f := fr.i.ex.fs()
+			p := f.resolve(a[0].(string))
 			if m := f.step("stat", p); m != "" {
 				return tuple{iface{}, errv(fr, m)}
 			}
 			defer f.done()
 			mf, ok := f.files[p]
 			if !ok {
-				return tuple{iface{}, fr.i.newErr("stat "+p+": no such file or directory", nil)}
+				return tuple{iface{}, fr.i.errWrap("stat "+p+": no such file or directory", "io/fs.ErrNotExist")}
 			}
 			return tuple{fr.i.fileInfo(p, mf), iface{}}
 		},
@@ -395,7 +469,8 @@ func init() {
 			if !ok {
 				return fr.i.newErr("rename "+from+" "+to+": no such file or directory", nil)
 			}
-			f.files[to] = mf // atomic replace (model assumption)
+			delete(f.links, to) // rename replaces the name itself, also when it is a symbolic link
+			f.files[to] = mf    // atomic replace (model assumption)
 			delete(f.files, from)
 			return iface{}
 		},
@@ -407,7 +482,7 @@ func init() {
 			}
 			defer f.done()
 			if _, ok := f.files[p]; !ok {
-				return fr.i.newErr("remove "+p+": no such file or directory", nil)
+				return fr.i.errWrap("remove "+p+": no such file or directory", "io/fs.ErrNotExist")
 			}
 			delete(f.files, p)
 			return iface{}
@@ -422,7 +497,18 @@ func init() {
 			}
 			return uint32(asUint64(widenAny(a[0]))) & 0o777
 		},
-		"(io/fs.FileMode).IsRegular": func(fr *frame, a []value) value { return true },
+		"(io/fs.FileMode).IsRegular": func(fr *frame, a []value) value {
+			if m, ok := a[0].(uint32); ok {
+				return m&(1<<27) == 0
+			}
+			return true
+		},
+		"(io/fs.FileMode).Type": func(fr *frame, a []value) value {
+			if m, ok := a[0].(uint32); ok {
+				return m & (1 << 27)
+			}
+			return uint32(0)
+		},
 		"(io/fs.FileMode).IsDir":     func(fr *frame, a []value) value { return false },
 		"io.ReadAll": func(fr *frame, a []value) value {
 			return tuple{toByteValues(fr.i.ex.fs().stdin), iface{}}
@@ -459,7 +545,7 @@ func init() {
 			if k < 0 {
 				s := f.stdin
 				f.stdin = ""
-				return tuple{s, fr.i.newErr("EOF", nil)}
+				return tuple{s, fr.i.sentinelOr("io.EOF")}
 			}
 			s := f.stdin[:k+1]
 			f.stdin = f.stdin[k+1:]
